@@ -24,6 +24,8 @@
 (*                                                                         *)
 (* Volumes of the 20-ft container (5870 x 2330 x 2200 mm) exceed 32 bits:  *)
 (* all volume arithmetic is done on little-endian base-2^13 numerals (Bn). *)
+(* Side lengths up to 2^17 mm (131 m) are supported: volumes < 2^51, times *)
+(* the fixed-point unit < 2^68, on 6 limbs = 78 bits.                      *)
 (***************************************************************************)
 EXTENDS EnvKit
 
@@ -36,19 +38,19 @@ ItemIdx == 1..NItems
 Actions == (0..(NObs - 1)) \X (0..(NItems - 1))        \* <<row of the observation, item id>>, 0-based as in the code
 
 (* ------------------------------------------------------------------ *)
-(* multi-limb naturals (5 limbs of 13 bits = 65 bits)                  *)
+(* multi-limb naturals (6 limbs of 13 bits = 78 bits)                  *)
 (* ------------------------------------------------------------------ *)
 BnB == 8192
-BnN == 5
+BnN == 6
 RECURSIVE BnCarry(_, _, _)
 BnCarry(f, k, c) == IF k > BnN THEN <<>> ELSE LET v == f[k] + c IN <<v % BnB>> \o BnCarry(f, k + 1, v \div BnB)
-BnOf(n)      == BnCarry(<<n, 0, 0, 0, 0>>, 1, 0)                         \* 0 <= n < 2^31 - 2^18
+BnOf(n)      == BnCarry(<<n, 0, 0, 0, 0, 0>>, 1, 0)                         \* 0 <= n < 2^31 - 2^18
 BnMul(x, m)  == BnCarry([k \in 1..BnN |-> x[k] * m], 1, 0)               \* 0 <= m <= 2^17
 BnAdd(x, y)  == BnCarry([k \in 1..BnN |-> x[k] + y[k]], 1, 0)
-BnZero       == <<0, 0, 0, 0, 0>>
+BnZero       == <<0, 0, 0, 0, 0, 0>>
 BnLeq(x, y)  == LET d == { k \in 1..BnN : x[k] # y[k] } IN
                 d = {} \/ (LET m == CHOOSE k \in d : \A j \in d : j <= k IN x[m] < y[m])
-BnVol3(a, b, c) == BnMul(BnOf(a * b), c)                                 \* a, b, c < 2^13
+BnVol3(a, b, c) == BnMul(BnMul(BnOf(a), b), c)                            \* a < 2^31 - 2^18; b, c <= 2^17
 RECURSIVE BnSumTo(_, _)
 BnSumTo(f, k) == IF k = 0 THEN BnZero ELSE BnAdd(f[k], BnSumTo(f, k - 1))
 \* q / 65536 ~ num / den within tol / 65536  (q, tol small ints >= 0; num, den numerals)
